@@ -18,7 +18,7 @@ import time
 VERIF = os.path.dirname(os.path.dirname(os.path.abspath(__file__)))
 REPO = os.environ.get("VERIF_REPO", "/repo")
 CACHE = os.environ.get("VERIF_CACHE", os.path.join(VERIF, ".cache"))
-DRIVER = os.path.join(VERIF, "driver", "target", "release", "domain-facts")
+DRIVER = os.environ.get("VERIF_DRIVER", os.path.join(VERIF, "driver", "target", "release", "domain-facts"))
 
 # feature configurations analysed
 CONFIGS = {
